@@ -26,7 +26,7 @@ OUTSIDE = ["n beyond the bound", "accuracy of LAPACK / SuperLU factorizations (C
            "IEEE rounding, conditioning"]
 ASSUMPTIONS = ["float64 arithmetic modelled as exact real arithmetic; np.allclose in the matrix classification read as exact equality",
                "matrices are non-singular (det != 0) with non-zero elimination pivots where the LU/LDL model is used"]
-ITEM_TIMEOUT = {"quick": 110, "thorough": 900}
+ITEM_TIMEOUT = {"quick": 240, "thorough": 900}
 
 
 def items(tier):
